@@ -180,7 +180,7 @@ pub fn op(w: Weights, maxn: u32) -> BoxedStrategy<Op> {
         v.push((w.iter, script(ws, 8).prop_map(Op::IntoIter).boxed()));
     }
     if w.forget > 0 {
-        v.push((w.forget, (range(), script(false, 5)).prop_map(|(r, s)| Op::Drain(r, s, End::Forget)).boxed()));
+        v.push((w.forget, (range(), any::<bool>().prop_flat_map(|w| script(w, 5))).prop_map(|(r, s)| Op::Drain(r, s, End::Forget)).boxed()));
     }
     let v: Vec<(u32, BoxedStrategy<Op>)> = v.into_iter().filter(|x| x.0 > 0).collect();
     proptest::strategy::Union::new_weighted(v).boxed()
